@@ -32,6 +32,10 @@ pub enum NOp {
     /// merged into `to`. The documented reaction is a panic; if the call returns Ok instead, the
     /// receiver has to honour C01 / C02 / C06 for the absorbed content.
     MergeMismatch { from: usize, to: usize, variant: u8 },
+    /// state transfer: a scratch node of a *different* configuration that already holds a few
+    /// elements (some of them not yet flushed by any read) is overwritten with
+    /// `Clone::clone_from(&nodes[from])` and must then be a copy of that node in every respect
+    InstallOdd { from: usize, variant: u8 },
     /// faults off: convergence phase
     Converge,
 }
@@ -567,6 +571,62 @@ impl<'a> Exec<'a> {
                         }
                     }
                 }
+                NOp::InstallOdd { from, variant } => {
+                    if *from >= n {
+                        continue;
+                    }
+                    let other_kind = match (&case.kind, variant % 2) {
+                        (NKind::Filter(FKind::Bloom { m, k }), 0) => NKind::Filter(FKind::Bloom { m: m + 7, k: k + 1 }),
+                        (NKind::Filter(FKind::Bloom { m, k }), _) => NKind::Filter(FKind::Bloom { m: (m / 2).max(1), k: *k }),
+                        (NKind::Filter(FKind::Quotient { q, r }), _) => NKind::Filter(FKind::Quotient { q: if *q > 1 { q - 1 } else { q + 1 }, r: *r }),
+                        (NKind::Filter(FKind::Cuckoo { bucketsize, n_buckets, l_fp }), _) => NKind::Filter(FKind::Cuckoo { bucketsize: bucketsize + 1, n_buckets: n_buckets * 2, l_fp: *l_fp }),
+                        (NKind::Cms { w, d, ctr }, 0) => NKind::Cms { w: *d, d: *w, ctr: *ctr },
+                        (NKind::Cms { w, d, ctr }, _) => NKind::Cms { w: w + 3, d: *d, ctr: *ctr },
+                        (NKind::Hll { b }, _) => NKind::Hll { b: if *b > 4 { b - 1 } else { b + 1 } },
+                        _ => continue,
+                    };
+                    // the scratch node also gets another hasher seed: everything has to be replaced
+                    let mut h2 = case.hasher;
+                    h2.seed = h2.seed.wrapping_add(1);
+                    let mut scratch = AnyNode::build(&other_kind, h2, 99);
+                    for (i, &k) in u.iter().enumerate().take(5) {
+                        let _ = scratch.ingest(k, 1 + (i as u64 % 2));
+                    }
+                    self.stats.steps += 1;
+                    if scratch.clone_from_other(&nodes[*from]) {
+                        self.stats.probe("clone_from_installed");
+                        let ct = contents[*from].clone();
+                        let ctx = format!("a node of configuration {:?} after clone_from(node {})", other_kind, from);
+                        let a = scratch.observe(u);
+                        let b = nodes[*from].observe(u);
+                        if a != b {
+                            let i = (0..a.len()).find(|&i| a[i] != b[i]).unwrap_or(0);
+                            let mut props = vec!["C19", "C06"];
+                            props.push(if matches!(case.kind, NKind::Cms { .. }) { "C02" } else if matches!(case.kind, NKind::Hll { .. }) { "C17" } else { "C01" });
+                            for p in props {
+                                self.viol.push(v(p, format!("{}/clone_from/differs-from-source", self.kname), self.step, format!("{}: observation #{} is {}, the source gives {}", ctx, i, a[i], b[i])));
+                            }
+                            return;
+                        }
+                        if !self.check_node(&scratch, &ct, &ctx) || !self.check_equivalence(&scratch, &ct, &ctx) {
+                            return;
+                        }
+                        // and it keeps behaving like the source: one more element into both
+                        if let Some(&k) = u.first() {
+                            let mut twin = nodes[*from].fork();
+                            let total_ok = !matches!(case.kind, NKind::Cms { .. }) || total(&ct) + 1 <= cmax;
+                            if total_ok {
+                                let (r1, r2) = (scratch.ingest(k, 1), twin.ingest(k, 1));
+                                if r1 != r2 || scratch.observe(u) != twin.observe(u) {
+                                    for p in ["C19", "C06", "C02"] {
+                                        self.viol.push(v(p, format!("{}/clone_from/diverges", self.kname), self.step, format!("{}: one more insert of {} behaves differently than on a clone() of the source", ctx, k)));
+                                    }
+                                    return;
+                                }
+                            }
+                        }
+                    }
+                }
                 NOp::Converge => {
                     self.stats.probe("convergence_phase");
                     if case.kind.idempotent() {
@@ -825,6 +885,8 @@ impl Scenario for S2 {
                 }
             } else if x < 97 {
                 ops.push(NOp::Algebra { a: g.usize(nodes), b: g.usize(nodes), c: g.usize(nodes) });
+            } else if x < 99 && g.chance(1, 2) {
+                ops.push(NOp::InstallOdd { from: g.usize(nodes), variant: g.below(2) as u8 });
             } else if x < 98 {
                 ops.push(NOp::MergeMismatch { from: g.usize(nodes), to: g.usize(nodes), variant: g.below(3) as u8 });
             }
